@@ -67,7 +67,7 @@ def check(seed, pid, tier):
         if l.startswith(("violation detail", "VIOLATION", "OK ", "KNOWN")): print("   " + l[:400])
     if r.returncode == 2: print(r.stderr[-1500:])
     reset()
-        return r.returncode
+    return r.returncode
 if __name__ == "__main__":
     a = sys.argv[1:]
     tier = "quick"
